@@ -100,7 +100,7 @@ impl Check for C17 {
         "C17"
     }
     fn rule(&self) -> String {
-        "seeded directory populations as in C07 plus dot-prefixed application files and directories beside the entries (names outside the reserved .kismet prefix), nested directories with files, and .kismet_temp content (files and a subdirectory) with ages 1h-1ns, exactly 1h, 1h+1ns, 59min, 61min, 0s, 10 years, in the future; capacity 0..n+1; plain, stacked and sharded front-ends (own shard and scripted random other shard); five granularities. Forced maintenance through set/put with the production one-hour limit. Oracle: directories survive; temp files younger than the limit at the latest instant the threshold can have been taken survive unchanged; temp files older than the limit at the earliest such instant are removed; dot-prefixed application files keep content, mode, mtime and atime; the key-named files removed and re-stamped are a legal Second Chance outcome computed over key-named files only. Non-trivial = something was deleted; distinct = hash of (entry point, n, capacity, ranks/marks, which extras, temp ages class)".to_string()
+        "seeded directory populations as in C07 plus dot-prefixed application files and directories beside the entries (names outside the reserved .kismet prefix), nested directories with files, and .kismet_temp content (files and a subdirectory) with ages 1h-1ns, exactly 1h, 1h+1ns, 59min, 61min, 0s, 10 years, in the future; capacity 0..n+1; plain, stacked and sharded front-ends (own shard and scripted random other shard); five granularities. Forced maintenance through set/put with the production one-hour limit. Oracle: directories survive; a temp file may be unlinked only if it is older than the limit at the moment of its unlink, and must be gone if it was already older than the limit when the call started and its directory was cleaned (robust to where the implementation reads the clock); dot-prefixed application files keep content, mode, mtime and atime; the key-named files removed and re-stamped are a legal Second Chance outcome computed over key-named files only. Non-trivial = something was deleted; distinct = hash of (entry point, n, capacity, ranks/marks, which extras, temp ages class)".to_string()
     }
     fn runs(&self, tier: Tier) -> u64 {
         match tier {
@@ -139,12 +139,18 @@ impl Check for C17 {
             let da = format!("{}/{}", root, shard_dir_name(a));
             plant_population(&mut fs, tape, &da, n, "k");
             plant_extras(&mut fs, tape, &da, &mut extras, with_dotfiles);
-            let dob = format!("{}/{}", root, shard_dir_name(o_eff));
-            let n2 = tape.draw(7) as usize;
-            plant_population(&mut fs, tape, &dob, n2, "o");
-            plant_extras(&mut fs, tape, &dob, &mut extras, with_dotfiles);
             maintained_dirs.push(da);
-            maintained_dirs.push(dob);
+            let _ = o_eff;
+            for o in 0..nshards {
+                if o == a {
+                    continue;
+                }
+                let dob = format!("{}/{}", root, shard_dir_name(o));
+                let n2 = tape.draw(7) as usize;
+                plant_population(&mut fs, tape, &dob, n2, &format!("o{}x", o));
+                plant_extras(&mut fs, tape, &dob, &mut extras, with_dotfiles);
+                maintained_dirs.push(dob);
+            }
             // application dot-files beside the shard directories
             if with_dotfiles && tape.draw(2) == 0 {
                 let p = format!("{}/.gitignore", root);
@@ -196,36 +202,43 @@ impl Check for C17 {
             match ex.kind {
                 "temp" => {
                     let td = kismet_vfs::kernel::split_parent(&ex.path).unwrap().0;
-                    // the directory may be cleaned more than once during the
-                    // call: a file must go if it is stale at the first pass,
-                    // and may stay only if it is still young at the last
-                    let idx = trace.iter().position(|r| r.kind == K::Opendir && r.path == td && r.err == 0);
-                    let last = trace.iter().rposition(|r| r.kind == K::Opendir && r.path == td && r.err == 0);
-                    let (lo, hi) = match (idx, last) {
-                        (Some(i), Some(l)) => (if i > 0 { trace[i - 1].now } else { before_fs.now }, trace[l].now),
-                        _ => {
+                    let cache_dir = kismet_vfs::kernel::split_parent(&td).unwrap().0;
+                    // Was this temp directory cleaned at all?  Only required when
+                    // its cache directory was maintained.
+                    let cleaned = trace.iter().any(|r| r.kind == K::Opendir && r.path == td && r.err == 0);
+                    let dir_maintained = trace.iter().any(|r| r.kind == K::Opendir && r.path == cache_dir && r.err == 0);
+                    if !cleaned {
+                        if dir_maintained {
                             fail(&mut out, "temp-not-cleaned", format!("{} was never listed although its cache directory was maintained", td), "temp");
-                            continue;
                         }
-                    };
-                    let age_lo = lo - ex.mtime;
-                    let age_hi = hi - ex.mtime;
-                    sig = mix(sig, if age_hi < HOUR { 1 } else if age_lo > HOUR { 2 } else { 3 });
-                    if age_hi < HOUR {
-                        match still {
-                            Ok(s) if s == was && after_fs.read_path(&ex.path) == before_fs.read_path(&ex.path) => {}
-                            Ok(s) => fail(&mut out, "young-temp-altered", format!("{} (age < 1h) was altered: {:?} -> {:?}", ex.path, was, s), "temp"),
-                            Err(_) => fail(&mut out, "young-temp-deleted", format!("{} had age {} ns < 1 h at the latest instant the threshold was taken, yet it was deleted", ex.path, age_hi), "temp"),
+                        continue;
+                    }
+                    // Robust to where the implementation reads the clock: the age
+                    // threshold is taken somewhere between the start of the call
+                    // and the unlink itself.
+                    let start = before_fs.now;
+                    let unlink_at = trace.iter().find(|r| r.kind == K::Unlink && r.path == ex.path && r.err == 0).map(|r| r.now);
+                    let age_at_start = start - ex.mtime;
+                    sig = mix(sig, if age_at_start > HOUR { 2 } else if age_at_start + 200_000_000_000 < HOUR { 1 } else { 3 });
+                    match (still, unlink_at) {
+                        (Err(_), Some(t)) => {
+                            if t - ex.mtime <= HOUR {
+                                fail(&mut out, "young-temp-deleted", format!("{} had age {} ns <= 1 h when it was unlinked", ex.path, t - ex.mtime), "temp");
+                            } else {
+                                deleted += 1;
+                                out.count("probe:stale_temp_removed", 1);
+                            }
                         }
-                    } else if age_lo > HOUR {
-                        if still.is_ok() {
-                            fail(&mut out, "stale-temp-kept", format!("{} had age {} ns > 1 h yet maintenance of its directory left it in place", ex.path, age_lo), "temp");
-                        } else {
-                            deleted += 1;
-                            out.count("probe:stale_temp_removed", 1);
+                        (Err(_), None) => fail(&mut out, "young-temp-deleted", format!("{} disappeared without an unlink of its own path", ex.path), "temp"),
+                        (Ok(s), _) => {
+                            if age_at_start > HOUR {
+                                fail(&mut out, "stale-temp-kept", format!("{} had age {} ns > 1 h when the call started, yet maintenance of its directory left it in place", ex.path, age_at_start), "temp");
+                            } else if !(s == was && after_fs.read_path(&ex.path) == before_fs.read_path(&ex.path)) {
+                                fail(&mut out, "young-temp-altered", format!("{} (not older than the limit) was altered: {:?} -> {:?}", ex.path, was, s), "temp");
+                            } else if age_at_start + 200_000_000_000 >= HOUR {
+                                out.count("probe:temp_exactly_at_limit", 1);
+                            }
                         }
-                    } else {
-                        out.count("probe:temp_exactly_at_limit", 1);
                     }
                 }
                 _ => match still {
@@ -242,10 +255,14 @@ impl Check for C17 {
         // the key-named victims: legal Second Chance outcome over key-named files
         {
             let inv = w.inv.lock().unwrap();
-            for d in maintained_dirs.iter() {
+            for (di, d) in maintained_dirs.iter().enumerate() {
                 let eps: Vec<_> = inv.episodes.iter().filter(|e| e.dir == *d).collect();
                 if eps.is_empty() {
-                    fail(&mut out, "no-maintenance", format!("{} was not maintained", d), "op");
+                    // the shard the key is written to must be maintained; which
+                    // other shard a sharded cache also maintains is its choice
+                    if di == 0 {
+                        fail(&mut out, "no-maintenance", format!("{} was not maintained", d), "op");
+                    }
                     continue;
                 }
                 for ep in eps {
